@@ -140,9 +140,9 @@ def space_d(tier: str):
     second = [R.rule(("or", P("o1", (), "hi"), P("o1", ("very",), "lo")), [("o2", (), "hi")]),
               R.rule(P("o1", ("not",), "lo"), [("o2", (), "lo")])]
     k_terms = [R.shape("Constant", "lo", [0.25]), R.shape("Constant", "hi", [0.75])]
-    methods = [("General",), ("Highest", 2), ("Proportional",), ("First", 2, 0.0), ("Threshold", ">", 0.25)]
+    methods = [("General",), ("Highest", 2), ("Proportional",), ("First", 2, 0.0), ("Threshold", ">", 0.25), ("Last", 2, 0.0), ("Lowest", 2)]
     if tier == "quick":
-        methods = methods[:3]
+        methods = methods[:5]  # (every method evaluates and triggers rule by rule: a later rule of the block sees the earlier conclusions)
     for aggr in [None] + RN.SNORMS:
         for order in itertools.permutations(range(3)):
             for swap in (False, True):
@@ -238,8 +238,31 @@ def space_g(tier: str):
             yield e, rows
 
 
-SPACES = {"A": space_a, "B": space_b, "C": space_c, "D": space_d, "E": space_e, "F": space_f, "G": space_g}
-PARTS = {"A": 24, "B": 12, "C": 8, "D": 8, "E": 8, "F": 2, "G": 2}
+# ----- H ---------------------------------------------------------------------------------------------------------------
+def space_h(tier: str):
+    """Operators installed through Engine.configure (by name / as objects): every (conjunction, implication) pair."""
+    rules = [
+        R.rule(("and", P("x", (), "lo"), P("y", (), "hi")), [("o", (), "lo")]),
+        R.rule(("or", P("x", (), "hi"), P("y", (), "lo")), [("o", (), "hi")], weight="0.500"),
+        R.rule(("and", P("x", ("not",), "lo"), P("y", ("somewhat",), "lo")), [("o", (), "lo"), ("o", ("very",), "hi")]),
+    ]
+    for how in ("names", "objects"):
+        for c, i in itertools.product(RN.TNORMS, RN.TNORMS):
+            for d, g, df, act in (("Maximum", "Maximum", ("Centroid", 16), ("General",)), ("AlgebraicSum", "BoundedSum", ("Bisector", 16), ("First", 2, 0.0))):
+                e = R.engine("H", [R.in_var("x"), R.in_var("y")], [R.out_var("o", aggregation=g, defuzzifier=df)],
+                             [R.block("rb", rules, c, d, i, activation=act)])
+                e["via_configure"] = how
+                yield e, grid(tier)
+        e = R.engine("H", [R.in_var("x"), R.in_var("y")],
+                     [R.out_var("o", terms=[R.shape("Constant", "lo", [0.25]), R.shape("Constant", "hi", [0.75])], aggregation=None,
+                                defuzzifier=("WeightedAverage", "TakagiSugeno"))],
+                     [R.block("rb", rules, "AlgebraicProduct", "AlgebraicSum", None, activation=("Proportional",))])
+        e["via_configure"] = how
+        yield e, grid(tier)
+
+
+SPACES = {"A": space_a, "B": space_b, "C": space_c, "D": space_d, "E": space_e, "F": space_f, "G": space_g, "H": space_h}
+PARTS = {"A": 24, "B": 12, "C": 8, "D": 8, "E": 8, "F": 2, "G": 2, "H": 2}
 
 
 def plan(tier: str, seed: int):
@@ -286,7 +309,7 @@ def summarize(tier: str, seed: int, merged: dict) -> dict:
     vac = [f"outcome class {k} is empty" for k in need if not c.get(k)]
     return {
         "rule": (
-            "sub-spaces G (two outputs of different kinds / ranges sharing ONE defuzzifier and operator instance), A (7x9x7x9 operator assignments x integral defuzzifiers), B (20x20 input/output shape terms, "
+            "sub-spaces H (operators installed through Engine.configure by name / as objects, all 49 conjunction x implication pairs), G (two outputs of different kinds / ranges sharing ONE defuzzifier and operator instance), A (7x9x7x9 operator assignments x integral defuzzifiers), B (20x20 input/output shape terms, "
             "Takagi-Sugeno, Tsukamoto, inverse Tsukamoto), C (all 2^10 enabled-flag assignments), D (output variables in "
             "antecedents: 10 aggregations x 6 rule orders x 2 block orders x activation methods), E (all antecedent trees "
             f"with <= {2 if tier == 'quick' else 3} leaves x 4 weights x 3 consequents x 2 operator pairs), F (16 activation "
